@@ -21,7 +21,7 @@ PLAN = {  # tier -> number of generated applications per class
     "thorough": {"free": 120, "inclass": 120},
 }
 BATCH = 40  # modules per workspace
-OPTIONAL_GENERATORS = [("gen_routes", "r"), ("gen_scopes", "s"), ("gen_errors", "e"), ("gen_mw", "w"), ("gen_own", "o"), ("gen_names", "n"), ("gen_generic", "x"), ("gen_deps", "d")]
+OPTIONAL_GENERATORS = [("gen_routes", "r"), ("gen_scopes", "s"), ("gen_errors", "e"), ("gen_mw", "w"), ("gen_own", "o"), ("gen_names", "n"), ("gen_generic", "x"), ("gen_deps", "d"), ("gen_stage", "t"), ("gen_config", "k")]
 
 
 def _tool_hash():
@@ -96,7 +96,8 @@ def build_programs(R):
                 continue
             spec.setdefault("klass", modname[4:])
             spec["generator"] = modname
-            progs.append({"name": name, "klass": spec["klass"], "spec": spec, "src": gen_app.render(spec)})
+            # a family may bring its own source text (`raw_src`); `no_runtime` keeps it out of the runner binary
+            progs.append({"name": name, "klass": spec["klass"], "spec": spec, "src": spec.get("raw_src") or gen_app.render(spec)})
     return progs
 
 
@@ -302,7 +303,7 @@ def get_runtime(R):
         out = {}
         by_ws = {}
         for o in obs.values():
-            if o["rc"] == 0 and o.get("cargo_check", {}).get("ok") and o["spec"]:
+            if o["rc"] == 0 and o.get("cargo_check", {}).get("ok") and o["spec"] and not o["spec"].get("no_runtime"):
                 by_ws.setdefault(o["workspace"], []).append(o)
         for root, progs in by_ws.items():
             ws = workspace_of(progs[0], info)
